@@ -17,7 +17,10 @@ DEFAULT_TOL = ("exact",)
 RULE = ("family hom/two: random phase-matched setups (degenerate and non-degenerate) x sides 4-8 (quick) / 4-24 (thorough) x six kinds of range "
         "(optimum, identical axes, unequal widths, offset along/against the energy-conserving line, narrow far apart) x delays {0, +-t, random}; "
         "identical sources through the SPDC-level wrappers, two different sources / two ranges through the array-level function; mismatched "
-        "step counts for the three assert_eq!")
+        "step counts for the three assert_eq!; the caller's integrator is the default in one case of three, otherwise Simpson 10/100/200 or "
+        "Gauss-Legendre 6/16/40 (purity oracle and the eight grids sampled with the same integrator); family hom/twoloop: up to four different "
+        "setups (a setup and length/bandwidth variants) on ONE common grid called in a loop from one call site - visibilities for all, delay scans "
+        "for all, reversed, random interleaving - each against its own SVD purity and its own eight grids")
 RESIDUAL = ("rate_si <= 1 for unequal signal/idler axes is not a theorem (it needs N1'N2' <= N1N2; the search hunts for a counterexample); "
             "model fidelity and rounding are measured by the comparison")
 CHECKER_MODULES = ["Spdc.Real.HomLemmas", "Spdc.Real.SchmidtLemmas", "Spdc.Real.TwoSrcLemmas"]
@@ -25,5 +28,5 @@ CHECKER_MODULES = ["Spdc.Real.HomLemmas", "Spdc.Real.SchmidtLemmas", "Spdc.Real.
 
 def families(tier, seed):
     if tier == "quick":
-        return [("hom", seed, 30, ["two"])]
-    return [("hom", seed, 200, ["two"])]
+        return [("hom", seed, 30, ["two"]), ("hom", seed, 4, ["twoloop"])]
+    return [("hom", seed, 200, ["two"]), ("hom", seed, 24, ["twoloop"])]
